@@ -82,6 +82,18 @@ TABLE={ # id: (property, demo file, package dir, -run pattern, needs)
  "C12-e":("C12","zz_seed_demo_test.go","notification","TestSeedDemo","a webhook reply with status 200 whose body cannot be read"),
  "C01-e":("C01","zz_seed_demo_test.go","database","TestSeedDemo","a stored ORPHAN at or above the lowest height a reorganisation demotes"),
  "C05-e":("C05","zz_seed_demo_test.go","database","TestSeedDemo","a restart (database.Init) while the highest stored header is not on the longest chain, e.g. after a kill between the two state updates of a reorganisation"),
+ "C15-d":("C15","zz_seed_demo_test.go","service","TestSeedDemo","submitter 1 has read its parent but not yet taken the lock while submitter 2 completes a reorganisation to a heavier but shorter fork"),
+ "C18-d":("C18","zz_seed_demo_test.go","transports/p2p","TestSeedDemo","an admitted inbound peer signals done (outbound group counter decremented without increment)"),
+ "C06-e":("C06","zz_seed_demo_test.go","transports/p2p/p2psync","TestSeedDemo","the sync peer is lost while every other connected peer is behind our tip; later one of them catches up and announces a block by inv"),
+ "C07-e":("C07","zz_seed_demo_test.go","service","TestSeedDemo","a forbidden list of more than one entry and a header matching a non-first entry"),
+ "C08-e":("C08","zz_seed_demo_test.go","transports/http/endpoints/api/merkleroots","TestSeedDemo","a page whose last entry is exactly one below the tip (tipHeight % batchSize == 0)"),
+ "C11-e":("C11","zz_seed_demo_test.go","service","TestSeedDemo","a header first stored as ORPHAN is submitted again"),
+ "C13-e":("C13","zz_seed_demo_test.go","service","TestSeedDemo","a locator whose longest-chain entries are not in descending height order"),
+ "C14-e":("C14","zz_seed_demo_test.go","internal/wire","TestSeedDemo","a frame whose command field is a known name, a NUL, then a non-NUL byte"),
+ "C03-e":("C03","zz_seed_demo_test.go","service","TestSeedDemo","a header timestamp of 2^31 seconds or later"),
+ "C04-e":("C04","zz_seed_demo_test.go","transports/http/endpoints/api/headers","TestSeedDemo","a header read by hash, then a reorganisation that flips its state, then read again in the same process"),
+ "C17-e":("C17","zz_seed_demo_test.go","database","TestSeedDemo","a start with prepared_db on a database that holds only height-0 rows"),
+ "C19-e":("C19","zz_seed_demo_test.go","domains","TestSeedDemo","difficulty bits with exponent byte 0x09 or 0x0a and a mantissa whose shifted value exceeds 64 bits"),
 }
 ENV=dict(os.environ,GOFLAGS="-mod=mod",GOPROXY="off")
 def run(cmd,cwd,timeout=1500):
